@@ -44,6 +44,7 @@ func (fr *FnRun) instr(st *State, in ssa.Instruction, depth int) {
 	switch x := in.(type) {
 	case *ssa.DebugRef:
 	case *ssa.Alloc:
+		fr.checkAllocSite(st, x)
 		elem := x.Type().(*types.Pointer).Elem()
 		name := x.Comment
 		if name == "" {
